@@ -1,5 +1,8 @@
 (* C04: the committed exception lists of the static half = known deviations of the unchanged tree
-   (sktime 0.6.0).  Every entry is also an open finding in findings.d/C04.json with a matcher.
+   (sktime 0.6.0 + the fix: commits of /repo; entries repaired there - MeanSquaredScaledError.sp,
+   ColumnEnsembleClassifier.remainder, (Mini)Rocket.random_state, the update_predict and
+   Detrender.update guards, ContractableBOSS time_limit / n_parameter_samples - have been removed, so
+   their return makes the Bridge theorems fail).  Every entry is also an open finding in findings.d/C04.json with a matcher.
    A class / parameter / method NOT listed here that deviates makes the Bridge theorems fail. *)
 From Coq Require Import List String.
 Require Import SkV.C04.Table.
@@ -25,12 +28,9 @@ Definition known_ctor : list (string * string) := [
   ("ARIMA", "**"); ("AutoARIMA", "**"); ("AutoETS", "**"); ("PCATransformer", "**");
   ("KNeighborsTimeSeriesClassifier", "**");
   ("BaseStrategy", "estimator"); ("BaseStrategy", "name");
-  ("ElasticEnsemble", "distance_measures"); ("ColumnEnsembleClassifier", "remainder");
+  ("ElasticEnsemble", "distance_measures");
   ("HIVECOTEV1", "stc_params"); ("HIVECOTEV1", "tsf_params"); ("HIVECOTEV1", "rise_params");
   ("HIVECOTEV1", "cboss_params");
-  ("MeanSquaredScaledError", "sp");
-  ("MiniRocket", "random_state"); ("MiniRocketMultivariate", "random_state");
-  ("Rocket", "random_state");
   ("Prophet", "changepoint_prior_scale"); ("Prophet", "holidays_prior_scale");
   ("Prophet", "seasonality_prior_scale");
   ("ProximityStump", "get_exemplars");
@@ -42,9 +42,6 @@ Definition known_ctor : list (string * string) := [
 (* (class or "*", owner of the executed body, method): fitted state is touched (or the method
    returns) before the fitted-state guard is reached. *)
 Definition known_guard : gknown := [
-  ("*", "_SktimeForecaster", "update_predict");
-  ("*", "_BaseWindowForecaster", "update_predict");
-  ("*", "Detrender", "update");
   ("*", "BaseSupervisedLearningStrategy", "predict");
   ("*", "ProximityForest", "predict_proba");
   ("*", "ProximityStump", "predict_proba");
@@ -72,7 +69,6 @@ Definition known_mutation : list (string * string) := [
   ("CanonicalIntervalForest", "min_interval"); ("DrCIF", "min_interval");
   ("BaseTimeSeriesForest@sktime.series_as_features.base.estimators.interval_based._tsf",
    "min_interval");
-  ("ContractableBOSS", "n_parameter_samples"); ("ContractableBOSS", "time_limit");
   ("TemporalDictionaryEnsemble", "n_parameter_samples"); ("TemporalDictionaryEnsemble", "time_limit");
   ("KNeighborsTimeSeriesClassifier", "distance_params");
   ("_ProphetAdapter", "changepoints"); ("_ProphetAdapter", "n_changepoints");
